@@ -61,6 +61,10 @@ EXPLANATION += (
     ' Round 5: sorted reads are put back with the matching permutation, not indexed with it a second time, and before every return (R-PERM); settings are forwarded (R-FWD).'
 )
 
+EXPLANATION += (
+    ' Round 6: a reader answers from the requested row list itself, not only from an order-free summary of it (R-PERM/request-order).'
+)
+
 RULE_TEXT = (
     "one obligation per (dispatcher, encoding member), per arm-"
     "distinctness relation, per cursor relation, per range step / slice "
@@ -302,8 +306,11 @@ def sweep_generic_rules(ctx, anchored_modules):
     from ..rules.scatter import check_pointer_scatter
     from ..rules.nodekeys import (check_node_keys, check_memo_keys,
                                   check_zip_alignment)
-    from ..rules.idioms import check_shared_mutable
+    from ..rules.idioms import (check_shared_mutable, check_narrowing_cast,
+                                check_inplace_float_store,
+                                check_abs_of_extremum)
     from ..rules.capacity import check_index_dtype
+    from ..rules.h5names import check_h5_names_created_once
     from ..rules.perm import check_sorted_results_unsorted
     n = 0
     with ctx.advisory_scope():
@@ -326,6 +333,10 @@ def sweep_generic_rules(ctx, anchored_modules):
                 n += check_shared_mutable(ctx, fi)
                 n += check_index_dtype(ctx, fi)
                 n += check_sorted_results_unsorted(ctx, fi)
+                n += check_narrowing_cast(ctx, fi)
+                n += check_inplace_float_store(ctx, fi)
+                n += check_abs_of_extremum(ctx, fi)
+                n += check_h5_names_created_once(ctx, fi)
             except AnalysisError:
                 continue
     ctx.note(f'thorough sweep: generic structural rules evaluated on {n} '
@@ -336,13 +347,15 @@ def check_unsort(ctx, rule='R-PERM/unsort-pair'):
     """row batches read in sorted order are put back with the matching
     permutation (sa/rules/perm.py)"""
     from ..rules.perm import (check_unsort_pairs,
-                              check_sorted_results_unsorted)
+                              check_sorted_results_unsorted,
+                              check_request_order)
     n = 0
     for fi in ctx.db.iter_functions():
         if fi.module.short in ('anndata_iterator.anndata_iterator',
                                'utils.sparse_utils'):
             n += check_unsort_pairs(ctx, fi, rule)
             n += check_sorted_results_unsorted(ctx, fi)
+            check_request_order(ctx, fi)
     if n < 1:
         raise AnalysisError('no sort / un-sort pair found in the row '
                             'batch readers')
